@@ -52,7 +52,7 @@ EXTRA = [('Put 5 into X\nsay X\n', ''), ('say 1 over 0\nsay 0 over 0\nsay -1 ove
          ('Cut "a,b" into Parts with ","\nsay Parts at 1\nJoin Parts with "-"\nsay Parts\nTurn up 1.5\nX is 2.5\nTurn round X\nsay X\n', ''), ('break\n\nsay 1\n', ''), ('say 1 plus "a" times 2\n', '')]
 
 
-def vm_run_program(mir, code, stdin):
+def vm_run_program(mir, code, stdin, native_ast=None):
     from .vm import VM, Explorer
     vm = VM(mir, Explorer(), fuel=30_000_000); vm.str_mode = 'bounded'
     out = {}
@@ -60,6 +60,12 @@ def vm_run_program(mir, code, stdin):
         r = conc(vm, parse_in_vm(vm, mir, code))
         if r.variant == 1: out['parse'] = 'err'; return out
         out['parse'] = 'ok'
+        if native_ast is not None:
+            # the tree rebuilt from the native parser's Debug output must be the tree the VM-executed parser produces
+            from .astparse import program_from_debug, same_tree
+            try: d = same_tree(vm, r.fields[0], program_from_debug(vm, mir, native_ast))
+            except Exception as e: d = f'{type(e).__name__}: {e}'
+            if d: out['tree_mismatch'] = d[:300]
         lines = []
         rest = stdin
         while rest:
@@ -83,7 +89,7 @@ _G = {}
 def _work(i):
     code, stdin, origin = _G['progs'][i]
     t = time.time()
-    r = vm_run_program(_G['mir'], code, stdin)
+    r = vm_run_program(_G['mir'], code, stdin, _G['asts'][i])
     r['wall'] = round(time.time() - t, 2)
     return r
 
@@ -96,7 +102,11 @@ def validate_programs(ctx, limit=None, profile='dev'):
         key = lambda p: hashlib.sha1((str(ctx.seed) + p[0] + p[1]).encode()).hexdigest()
         progs = sorted(progs, key=key)[:limit]
     progs = [(c, i, 'extra') for c, i in EXTRA] + progs
-    _G.update(progs=progs, mir=mir)
+    asts = []
+    for c, _, _ in progs:
+        pr = nat.call({'op': 'parse', 'src': c}, timeout=20)
+        asts.append(pr.get('ast') if pr.get('ok') else None)
+    _G.update(progs=progs, mir=mir, asts=asts)
     n = min(14, len(progs))
     cx = multiprocessing.get_context('fork')
     with cx.Pool(n, maxtasksperchild=4) as pool: vm_res = pool.map(_work, range(len(progs)), chunksize=1)
@@ -106,7 +116,7 @@ def validate_programs(ctx, limit=None, profile='dev'):
         if 'panic' in nv or 'crash' in nv or 'timeout' in nv:
             okk = 'panic' in got          # both crash (a genuine defect is reported by the property checks, not here)
         else:
-            okk = 'exception' not in got and 'panic' not in got and got.get('parse') == nv.get('parse') and \
+            okk = 'exception' not in got and 'panic' not in got and 'tree_mismatch' not in got and got.get('parse') == nv.get('parse') and \
                 (nv.get('parse') != 'ok' or (got.get('result') == nv.get('result') and got.get('stdout') == nv.get('stdout')))
         if okk: good += 1
         else: bad.append({'program-level': True, 'origin': origin, 'src': code[:400], 'stdin': stdin[:80], 'vm': {k: (v if not isinstance(v, str) else v[:300]) for k, v in got.items()},
